@@ -45,18 +45,18 @@ class VC:
             return v.opaque(name)
         return opaque_scalar(name, v)
 
-    # loop protocol (see loops.py for contracts)
-    def cut(self, label, it, get_locals):
-        spec = self.loops.get(label)
-        if spec is None:
-            raise Undecided(f"no loop contract for {label}")
-        return spec.cut(self, label, it, get_locals)
+    # loop protocol (contracts: pyvc.loops.LoopSpec)
+    def forever(self):
+        from .loops import Forever
+        return Forever()
 
-    def cut_while(self, label, test, get_locals):
+    def cut(self, label, it, getters, order):
         spec = self.loops.get(label)
         if spec is None:
             raise Undecided(f"no loop contract for {label}")
-        return spec.cut_while(self, label, test, get_locals)
+        spec.order = list(order)
+        spec.assigned = set(order)
+        return spec.cut(self, label, it, getters)
 
     def havoc_locals(self, label):
         return self.loops[label].havoc_values()
